@@ -198,3 +198,14 @@ func valueHash(v reflect.Value, h uint64) uint64 {
 	}
 	panic("simrt: typehash of unhashable kind " + v.Kind().String())
 }
+
+// UseHash switches the seam to an instance's configuration (sequential
+// scenarios drive sibling instances that differ in hash mode and seed stream).
+func UseHash(m HashMode, n int, seeds *RNG) {
+	hashMode = m
+	if n < 1 {
+		n = 1
+	}
+	collideN = uint64(n)
+	seedRNG = seeds
+}
